@@ -1,9 +1,10 @@
 (* C14 - libdialect: HOLA returns a clean orthogonal drawing of the same graph.
    Level `other`: these theorems cover ONLY (a) the verified oracle that checks/c14.py runs on real doHOLA
    outputs and (b) the node-padding arithmetic of hola.cpp; the HOLA pipeline itself is not modelled, the
-   implementation is sampled.  Only statements closed by `exact`; proofs are in Dialect/HolaCheck.v and
+   implementation is sampled; and (c) one leaf of the pipeline, the direction functions of Compass (ortho.cpp), whose
+   Gallina definitions tools/cpp2v.py regenerates from the source on every run (Gen/Compass.v).  Only statements closed by `exact`; proofs are in Dialect/HolaCheck.v and
    Dialect/HolaPadding.v. *)
-From Adapt Require Import Num.Qaux Dialect.SepPairModel Dialect.HolaPadding Dialect.HolaCheck.
+From Adapt Require Import Num.Qaux Dialect.SepPairModel Dialect.HolaPadding Dialect.HolaCheck Gen.Compass Dialect.Compass.
 Local Open Scope Q_scope.
 
 Theorem C14_hola_ok_sound T scalar before after :
@@ -34,3 +35,56 @@ Theorem C14_routing_inflation_within_padding scalar sizes role wh :
   fst d - fst wh == snd d - snd wh.
 Proof. exact (routing_inflation_within_padding scalar sizes role wh). Qed.
 Print Assumptions C14_routing_inflation_within_padding.
+
+(* ---- (c) Compass::cardinalDirection / Compass::compassDirection (Gen/Compass.v, regenerated from ortho.cpp every run);
+   directions are CompassDir enumerators as integers: EAST 0, SOUTH 1, WEST 2, NORTH 3, SE 4, SW 5, NW 6, NE 7 *)
+Theorem C14_cardinalDirection_spec p0 p1 :
+  let dx := ddx p0 p1 in let dy := ddy p0 p1 in
+  (cardinalDirection p0 p1 = 0%Z <-> Qabs dy <= Qabs dx /\ 0 < dx) /\
+  (cardinalDirection p0 p1 = 2%Z <-> Qabs dy <= Qabs dx /\ dx <= 0) /\
+  (cardinalDirection p0 p1 = 1%Z <-> Qabs dx < Qabs dy /\ 0 < dy) /\
+  (cardinalDirection p0 p1 = 3%Z <-> Qabs dx < Qabs dy /\ dy < 0).
+Proof. exact (cardinalDirection_spec p0 p1). Qed.
+Print Assumptions C14_cardinalDirection_spec.
+
+Theorem C14_cardinalDirection_range p0 p1 : (0 <= cardinalDirection p0 p1 < 4)%Z.
+Proof. exact (cardinalDirection_range p0 p1). Qed.
+Print Assumptions C14_cardinalDirection_range.
+
+Theorem C14_cardinalDirection_antisym p0 p1 : distinct p0 p1 ->
+  cardinalDirection p1 p0 = card_flip (cardinalDirection p0 p1).
+Proof. exact (cardinalDirection_antisym p0 p1). Qed.
+Print Assumptions C14_cardinalDirection_antisym.
+
+(* ... and the hypothesis is needed: for coincident points both orders answer WEST *)
+Theorem C14_cardinalDirection_coincident p : cardinalDirection p p = 2%Z.
+Proof. exact (cardinalDirection_coincident p). Qed.
+Print Assumptions C14_cardinalDirection_coincident.
+
+Theorem C14_cardinalDirection_translate p0 p1 t :
+  cardinalDirection (pt_add p0 t) (pt_add p1 t) = cardinalDirection p0 p1.
+Proof. exact (cardinalDirection_translate p0 p1 t). Qed.
+Print Assumptions C14_cardinalDirection_translate.
+
+Theorem C14_compassDirection_spec p0 p1 : distinct p0 p1 ->
+  let dx := ddx p0 p1 in let dy := ddy p0 p1 in
+  let d := compassDirection p0 p1 in
+  (d = 0%Z <-> dy == 0 /\ 0 < dx) /\ (d = 2%Z <-> dy == 0 /\ dx < 0) /\
+  (d = 1%Z <-> dx == 0 /\ 0 < dy) /\ (d = 3%Z <-> dx == 0 /\ dy < 0) /\
+  (d = 4%Z <-> 0 < dx /\ 0 < dy) /\ (d = 5%Z <-> dx < 0 /\ 0 < dy) /\
+  (d = 6%Z <-> dx < 0 /\ dy < 0) /\ (d = 7%Z <-> 0 < dx /\ dy < 0).
+Proof. exact (compassDirection_spec p0 p1). Qed.
+Print Assumptions C14_compassDirection_spec.
+
+Theorem C14_compassDirection_antisym p0 p1 : distinct p0 p1 ->
+  compassDirection p1 p0 = compass_flip (compassDirection p0 p1).
+Proof. exact (compassDirection_antisym p0 p1). Qed.
+Print Assumptions C14_compassDirection_antisym.
+
+Theorem C14_compass_cardinal_consistent p0 p1 : distinct p0 p1 ->
+  let c := compassDirection p0 p1 in let k := cardinalDirection p0 p1 in
+  ((c < 4)%Z -> k = c) /\
+  (c = 4%Z -> k = 1%Z \/ k = 0%Z) /\ (c = 5%Z -> k = 1%Z \/ k = 2%Z) /\
+  (c = 6%Z -> k = 3%Z \/ k = 2%Z) /\ (c = 7%Z -> k = 3%Z \/ k = 0%Z).
+Proof. exact (compass_cardinal_consistent p0 p1). Qed.
+Print Assumptions C14_compass_cardinal_consistent.
